@@ -13,10 +13,15 @@ import time
 ROOT = os.path.dirname(os.path.dirname(os.path.abspath(__file__)))
 SPEC = os.path.join(ROOT, "spec")
 HARNESS = os.path.join(ROOT, "harness")
-WORK = os.path.join(ROOT, ".work")
-EVID = os.path.join(ROOT, "evidence")
-REPLAYS = os.path.join(ROOT, "replays")
-VH = os.path.join(HARNESS, "target", "debug", "vh")
+# Development aids (never set by the registered commands): VERIF_SCRATCH=<dir> moves the work directory, the evidence
+# files, the replay files and the harness build output under <dir>, so that an experiment (a seeded change, a run
+# against a copy of the repository) neither disturbs nor overwrites what a concurrent or later real run produces.
+_SCRATCH = os.environ.get("VERIF_SCRATCH")
+WORK = os.path.join(_SCRATCH or ROOT, ".work")
+EVID = os.path.join(_SCRATCH or ROOT, "evidence")
+REPLAYS = os.path.join(_SCRATCH or ROOT, "replays")
+HTARGET = os.path.join(_SCRATCH, "harness-target") if _SCRATCH else os.path.join(HARNESS, "target")
+VH = os.path.join(HTARGET, "debug", "vh")
 KNOWN = os.path.join(ROOT, "KNOWN_FINDINGS.txt")
 
 TLC_JAR = "/opt/veriftools/tla/tla2tools.jar"
@@ -51,7 +56,8 @@ def build_harness():
     """Rebuilds the harness (and tarpc with --cfg tarpc_verif) from /repo's working tree."""
     t0 = time.time()
     env = dict(os.environ, CARGO_NET_OFFLINE="true")
-    p = subprocess.run(["cargo", "build", "--offline"] + repo_override(), cwd=HARNESS, env=env,
+    p = subprocess.run(["cargo", "build", "--offline"] + repo_override() + (["--target-dir", HTARGET] if _SCRATCH else []),
+                       cwd=HARNESS, env=env,
                        stdout=subprocess.PIPE, stderr=subprocess.STDOUT, text=True)
     if p.returncode != 0:
         log(p.stdout[-4000:])
